@@ -61,6 +61,13 @@ claim("C04", "edge-cut reachability (default-deny) + provenance + call-graph rea
       "Decides necessary conditions of 're-snapshot unless continuity is proven' on every path: snapshot is the default and each 'continue incrementally' is reachable only through its evidence edges; helper verdicts are pinned; session state is cleared by Close; wiping local state on a live database re-baselines; the salt-change branch inspects the WAL at the old cursor. Four genuine defects were found by these rules and fixed (F1, F2, F3 and the init wedge F8 under C05). Sufficiency of the evidence for all SQLite histories is not decidable from shape and is not claimed.",
       _TB, "DESIGN.md 3/C04")
 
+claim("C13", "edge-cut reachability + value provenance on the checkpoint policy",
+      "Decides the loop-breaking guards of the checkpoint policy on every path (idle sync creates nothing; time-based checkpoint needs data synced since the last checkpoint and every completed checkpoint clears that flag; thresholds consume the logical synced offset; the policy runs whenever the sync loop stops). The quantitative bound on live WAL frames depends on SQLite's run-time checkpoint results and is not decided.",
+      _TB, "DESIGN.md 3/C13")
+claim("C06", "edge-cut/loop reachability + value provenance + fail-stop walk on the compaction path",
+      "Decides on every path: compaction starts at MaxTXID(dst)+1 on level dst-1, no listed input can be skipped silently, the advertised range is folded over all inputs, the pipe/cache hand-off follows the write result, the snapshot branch needs a newer position, snapshots advertise the committed size. Page equivalence of compacted files lives in the pinned ltx dependency and is not decided.",
+      _TB, "DESIGN.md 3/C06")
+
 _pending = "check not built yet in this revision (planned, see DESIGN.md section 3); not claimed until its rules run clean on the unchanged tree"
-for _p in ["C06","C13","C18"]:
+for _p in ["C18"]:
     na(_p, _pending)
